@@ -39,6 +39,27 @@ pub fn build_zhong(ctx: &Ctx, ylo: isize, yhi: isize) -> Zhong {
   Zhong { zq }
 }
 
+/// the same major term addressed with an index below 0 (from the next year) or above 23 (from the previous year) is the same term
+fn check_addressing(ctx: &Ctx, z: &Zhong, y: isize, loc: &mut Local) {
+  for k in 0..12isize {
+    let want = z.zq[y as usize][k as usize];
+    if want == i64::MIN {
+      continue;
+    }
+    loc.transitions += 2;
+    let r = guard(|| (term_day(y + 1, 2 * k - 24), term_day(y - 1, 2 * k + 24), SolarTerm::from_index(y + 1, 2 * k - 24).get_year(), SolarTerm::from_index(y - 1, 2 * k + 24).get_year()));
+    let key = format!("{:04} term {}", y, 2 * k);
+    match r {
+      Ok((a, b, ya, yb)) => {
+        if a != want || b != want || ya != y || yb != y {
+          ctx.violation("term_addressing", key, format!("from_index({}, {}) is term-year {} on calendar-making day JD {}; from_index({}, {}) is term-year {} on JD {}; from_index({}, {}) is on JD {}", y + 1, 2 * k - 24, ya, a, y - 1, 2 * k + 24, yb, b, y, 2 * k, want), vec!["sui".into(), y.to_string()]);
+        }
+      }
+      Err(m) => ctx.violation("term_addressing", key, format!("panics: {}", m), vec!["sui".into(), y.to_string()]),
+    }
+  }
+}
+
 fn find_lun(t: &LunTable, day: i64, hint_year: isize) -> Option<usize> {
   let s = t.year_start[(hint_year - 1).max(0) as usize] as usize;
   let e = t.year_start[(hint_year + 2).min(10001) as usize] as usize;
@@ -156,6 +177,12 @@ pub fn run(ctx: &Ctx) {
     }
   });
   ctx.subspace(&format!("sui: {} winter-solstice-to-winter-solstice spans ({}), every lunation of each labelled by the rule", years.len(), "all of 27..9997 except 237-239"), done, years.len() as u64);
+  let done = par_chunks(ctx, 2, 9999, 50, |a, b, l| {
+    for y in a..b {
+      check_addressing(ctx, &z, y as isize, l);
+    }
+  });
+  ctx.subspace("term addressing: the 12 major terms of every year 2..9998 fetched with index i-24 from the next year and i+24 from the previous year", done, 9997 * 12);
   // every leap month of the table must have been produced by some sui (no leap month in a 12-lunation sui is implied by the walk)
   for y in [2020isize, 2033, 1984, 7013] {
     let d0 = z.zq[(y + 1) as usize][0];
@@ -176,5 +203,8 @@ pub fn replay(ctx: &Ctx, args: &[String]) {
     println!("  library lunation {} starts JD {} days {}", lun.key(), lun.jd, lun.days);
   }
   check_sui(ctx, &t, &z, y, &mut l);
+  if y >= 2 && y <= 9998 {
+    check_addressing(ctx, &z, y, &mut l);
+  }
   ctx.add(&l);
 }
